@@ -55,7 +55,7 @@ def plan(tier: str, seed: int) -> t.List[dict]:
 
 def finalize(agg, tier: str) -> t.List[str]:
     r = []
-    for c in ("int_checked", "oid_checked", "tag_checked", "tree_checked", "concat_checked", "string_checked", "bool_checked"):
+    for c in ("int_checked", "oid_checked", "tag_checked", "tree_checked", "concat_checked", "string_checked", "bool_checked", "reader_api_checked"):
         if agg.counter(c) == 0:
             r.append(f"monitor never reached: {c} == 0")
     if agg.counter("reader_leftover_checks") == 0:
@@ -446,6 +446,72 @@ def check_tree(rec: Recorder, tree, label: str) -> None:
         rec.violation(f"{label}-not-der", f"strict parser rejected writer output: {e}", wit)
 
 
+def check_reader_api_variants(rec: Recorder, rng: random.Random) -> None:
+    """The same decoding through the other entry points of the reader: peek_header + header=, skip_value,
+    read_set_of / read_sequence_of, get_remaining_data on child readers, bytes / bytearray / memoryview input,
+    read_enumerated with a real IntEnum, BOOLEAN contents other than 00 / FF."""
+    import enum
+
+    a = _asn1()
+    items = [gen_tree(rng, rng.randrange(0, 3), [8]) for _ in range(rng.randrange(2, 7))]
+    encs = [ref_encode_tree(x) for x in items]
+    data = b"".join(encs)
+    wit = {"kind": "reader-api", "tree": repr(("concat", items))[:3000]}
+    try:
+        for wrap in (bytes, bytearray, memoryview):
+            r = a.ASN1Reader(wrap(data))
+            for enc in encs:
+                hdr = r.peek_header()
+                n = der.parse_at(enc, 0, len(enc))
+                if (int(hdr.tag.tag_class), bool(hdr.tag.is_constructed), int(hdr.tag.tag_number)) != n.tag or hdr.tag_length != n.hdr_len or hdr.length != n.length:
+                    rec.violation("peek-header-mismatch", f"peek_header gave {hdr} for {enc[:12].hex()} ({wrap.__name__} input)", wit)
+                    return
+                if rng.random() < 0.5:
+                    r.skip_value(hdr)
+                else:
+                    got = r.read_octet_string(header=hdr)  # header= makes the reader accept the tag it peeked
+                    if got != n.content:
+                        rec.violation("read-with-header-mismatch", f"read_octet_string(header=) returned {len(got)} bytes, content is {len(n.content)}", wit)
+                        return
+            if r or r.get_remaining_data():
+                rec.violation("reader-api-consumed-mismatch", f"bytes left after skipping / reading every value ({wrap.__name__} input)", wit)
+                return
+        # child readers: remaining data after reading k children equals the encodings of the rest
+        seq = der.enc_seq(*encs)
+        st = der.enc_set(*encs)
+        for enc, reader_name in ((seq, "read_sequence"), (seq, "read_sequence_of"), (st, "read_set"), (st, "read_set_of")):
+            outer = a.ASN1Reader(enc + b"\x05\x00")
+            child = getattr(outer, reader_name)()
+            k = rng.randrange(0, len(encs) + 1)
+            for e in encs[:k]:
+                child.skip_value(child.peek_header())
+            rest = child.get_remaining_data()
+            if rest != b"".join(encs[k:]) or bool(child) or outer.get_remaining_data() != b"\x05\x00":
+                rec.violation("child-reader-remaining", f"{reader_name}: remaining data after {k} of {len(encs)} children is wrong", wit)
+                return
+    except Exception as e:
+        rec.violation("reader-api-exception", f"{type(e).__name__}: {e}", wit)
+        return
+
+    class Color(enum.IntEnum):
+        A = 0
+        B = 5
+        C = 300
+        D = -7
+
+    for member in Color:
+        r = a.ASN1Reader(der.enc_enum(int(member)))
+        got = r.read_enumerated(Color)
+        if got is not member or r.get_remaining_data():
+            rec.violation("enumerated-intenum", f"read_enumerated(Color) gave {got!r} for {int(member)}", {"kind": "reader-api", "value": int(member)})
+    for content, want in ((b"\x00", False), (b"\xff", True), (b"\x01", True), (b"\x80", True)):
+        r = a.ASN1Reader(der.tlv(0, False, 1, content) + b"\x02\x01\x07")
+        if r.read_boolean() is not want or r.read_integer() != 7 or r.get_remaining_data():
+            rec.violation("boolean-read", f"BOOLEAN content {content.hex()} not read as {want} / consumption wrong", {"kind": "reader-api", "content": content})
+    rec.count("reader_api_checked")
+    rec.count("reader_leftover_checks", 3 + 4)
+
+
 # ---------------------------------------------------------------------------
 def run_mix(spec: dict, rec: Recorder) -> None:
     rng = common.rng_for(ID, spec)
@@ -475,7 +541,7 @@ def run_mix(spec: dict, rec: Recorder) -> None:
             check_bool(rec, bool(i & 8))
             rec.count("bool_checked")
         elif sel < 8:
-            tree = gen_tree(rng, rng.randrange(1, 13), [rng.choice([5, 30, 200])])
+            tree = gen_tree(rng, rng.choice([rng.randrange(1, 13), 40, 120]), [rng.choice([5, 30, 200, 600])])
             check_tree(rec, tree, "tree")
             rec.case(("tree", repr(tree)))
             rec.count("tree_checked")
@@ -486,6 +552,8 @@ def run_mix(spec: dict, rec: Recorder) -> None:
             check_tree(rec, ("concat", items), "concat")
             rec.case(("concat", repr(items)))
             rec.count("concat_checked")
+            if i % 20 == 9:
+                check_reader_api_variants(rec, rng)
 
 
 def run_lengths(spec: dict, rec: Recorder) -> None:
